@@ -707,6 +707,7 @@ impl<C: CellType> OptRebuild<'_, C> {
         linear: &HashMap<isize, Expr<C>>,
         other_pending: &HashSet<isize>,
         loop_anal: &OptLoop<C>,
+        sub_state: &OptRebuild<C>,
     ) -> [Option<Expr<C>>; 3] {
         if constant.contains(&var) && complete {
             return [None, None, None];
@@ -729,17 +730,23 @@ impl<C: CellType> OptRebuild<'_, C> {
                         let mut after = other;
                         let expr_neg_one = expr.add(Expr::val(C::NEG_ONE));
                         for (initial, increment) in linears {
+                            // The operand may already have been updated (and emitted)
+                            // earlier in the iteration, use its value at that point.
+                            let Some(start) = sub_state.eval_written(&initial) else {
+                                after = after.add(initial);
+                                continue;
+                            };
                             if let Some(inc) = increment.half() {
                                 before = expr
-                                    .mul(initial)
+                                    .mul(&start)
                                     .add(before.add(expr.mul(expr_neg_one.mul(inc))));
                             } else if let Some(inc) = expr.half() {
                                 before = expr
-                                    .mul(initial)
+                                    .mul(&start)
                                     .add(before.add(expr_neg_one.mul(increment.mul(inc))));
                             } else if let Some(inc) = expr_neg_one.half() {
                                 before = expr
-                                    .mul(initial)
+                                    .mul(&start)
                                     .add(before.add(expr.mul(increment.mul(inc))));
                             } else {
                                 after = after.add(initial);
@@ -1184,6 +1191,7 @@ impl<'a, C: CellType> OptRebuild<'a, C> {
                                     &linear,
                                     &pending_set,
                                     &loop_anal,
+                                    &sub_state,
                                 );
                                 if let Some(b) = b {
                                     before.push((var, b));
